@@ -120,6 +120,33 @@ func TestC17(t *testing.T) {
 			rec.Class("identity_perm")
 			return
 		}
+		// the common name (same on both sides): as in the base, removed, a copy of one of the dNSName
+		// entries, a letter-case variant of one, or unrelated
+		cnMode := rapid.IntRange(0, 5).Draw(rt, "cnmode")
+		var cnVal []byte
+		if cnMode >= 2 && cnMode <= 4 {
+			var dns []string
+			for _, d := range desc {
+				if strings.HasPrefix(d, "dns:") {
+					dns = append(dns, strings.TrimPrefix(d, "dns:"))
+				}
+			}
+			if len(dns) == 0 {
+				cnMode = 0
+			} else {
+				pick := dns[rapid.IntRange(0, len(dns)-1).Draw(rt, "cnpick")]
+				switch cnMode {
+				case 3:
+					pick = strings.ToUpper(pick)
+				case 4:
+					pick = strings.ToLower(pick)
+				}
+				cnVal = []byte(pick)
+			}
+		}
+		if cnMode == 5 {
+			cnVal = []byte("unrelated.example.org")
+		}
 		build := func(order []*dt.Node) ([]byte, bool) {
 			v, err := gen.ViewCert(o.DER)
 			if err != nil {
@@ -134,7 +161,10 @@ func TestC17(t *testing.T) {
 				crit = true
 			}
 			v.SetSAN(crit, cl...)
-			switch rapid.IntRange(0, 0).Draw(rt, "noop") {
+			if cnMode == 1 {
+				v.RemoveCN()
+			} else if cnVal != nil {
+				v.SetCN(cnVal, 12)
 			}
 			if pc != nil && pc.SelfSigned {
 				v.SelfSign()
@@ -147,7 +177,7 @@ func TestC17(t *testing.T) {
 		if !ok1 || !ok2 {
 			return
 		}
-		c := c17Case{DER: d1, DER2: d2, What: "san", Base: o.Name, Names: desc, Perm: perm}
+		c := c17Case{DER: d1, DER2: d2, What: "san", Base: o.Name, Names: append(append([]string{}, desc...), fmt.Sprintf("cn-mode=%d:%s", cnMode, cnVal)), Perm: perm}
 		rec.Eval()
 		if sig, msg := judgeC17(rec, c); msg != "" {
 			fail(rt, rec, "c17", sig, msg, c)
@@ -156,6 +186,88 @@ func TestC17(t *testing.T) {
 			rec.Sample(map[string]interface{}{"what": "san", "base": o.Name, "names": desc, "perm": perm})
 		}
 	})
+	// enumerated: every unordered pair {X, Y} of a fixed pool of GeneralNames (every arm; compliant,
+	// offending and unparseable entries) as SAN [X, Y] against [Y, X], on a subscriber certificate that
+	// is home to most name lints - a finding about one entry must not depend on which side the other
+	// sits. dNSName pairs additionally with the common name set to X, to Y and removed.
+	{
+		pool, pdesc := gen.GNPool()
+		var base *gen.Obj
+		bestN := -1
+		hm := homeObjects()
+		cntHome := map[int]int{}
+		for _, ln := range []string{"e_dnsname_not_valid_tld", "e_subject_common_name_not_exactly_from_san", "e_subject_contains_reserved_arpa_ip", "e_dnsname_bad_character_in_label",
+			"e_ext_san_uri_host_not_fqdn_or_ip", "e_dnsname_underscore_in_sld", "e_san_dns_name_onion_invalid", "e_ext_san_rfc822_format_invalid", "e_subject_common_name_not_from_san"} {
+			for _, i := range hm[ln] {
+				if homeClass[ln][i] >= 1 {
+					cntHome[i]++
+				}
+			}
+		}
+		for _, i := range sanBases {
+			if pc, ok := gen.ParseCert(co.Certs[i].DER); ok && !pc.IsCA && !pc.SelfSigned && cntHome[i] > bestN {
+				bestN = cntHome[i]
+				base = &co.Certs[i]
+			}
+		}
+		k, done := 0, 0
+		if base != nil {
+			mk := func(a, b *dt.Node, cn int) ([]byte, bool) {
+				v, err := gen.ViewCert(base.DER)
+				if err != nil {
+					return nil, false
+				}
+				v.SetSAN(false, a.Clone(), b.Clone())
+				switch cn {
+				case 1:
+					v.RemoveCN()
+				case 2:
+					v.SetCN(a.Content, 12)
+				case 3:
+					v.SetCN(b.Content, 12)
+				}
+				return v.DER(), true
+			}
+			for i := 0; i < len(pool); i++ {
+				for j := i + 1; j < len(pool); j++ {
+					bothDNS := strings.HasPrefix(pdesc[i], "dns:") && strings.HasPrefix(pdesc[j], "dns:")
+					modes := []int{0}
+					if bothDNS {
+						modes = []int{1, 2, 3}
+					}
+					for _, cn := range modes {
+						k++
+						if !stats.Mine(k) {
+							continue
+						}
+						d1, ok1 := mk(pool[i], pool[j], cn)
+						// the common name refers to the same entry on both sides
+						cn2 := cn
+						if cn == 2 {
+							cn2 = 3
+						} else if cn == 3 {
+							cn2 = 2
+						}
+						d2, ok2 := mk(pool[j], pool[i], cn2)
+						if !ok1 || !ok2 {
+							continue
+						}
+						done++
+						c := c17Case{DER: d1, DER2: d2, What: "san", Base: base.Name, Names: []string{pdesc[i], pdesc[j], fmt.Sprintf("cn-mode=%d", cn)}, Perm: []int{1, 0}}
+						rec.Eval()
+						rec.Class("san_pairs_enumerated")
+						if sig, msg := judgeC17(rec, c); msg != "" {
+							if rec.Report("c17", sig, msg, c) {
+								t.Fatalf("c17 pair [%s, %s] cn-mode %d on %s: %s: %s", pdesc[i], pdesc[j], cn, base.Name, sig, msg)
+							}
+						}
+					}
+				}
+			}
+			rec.Note("san-pairs", fmt.Sprintf("pool of %d GeneralNames, base %s, %d pair cases in this shard", len(pool), base.Name, done))
+		}
+		rec.Exhaustive("all unordered pairs of the GeneralName pool as a two-entry SAN in both orders", base != nil)
+	}
 	// enumerated: every corpus certificate x five fixed permutations of its extension list
 	// (so each lint sees the extension it reads at the first, last and a middle position)
 	fixedPerms := func(n int) [][]int {
